@@ -228,13 +228,121 @@ def run_case(ctx, case_seed, i, scratch):
           ctx.count('flat_ok')
       except evaluator.Unsupported:
         pass
+  # invalid graphs derived from this valid tree: one mutation, in the main file or in any module
+  if parsed.get('PY') is not None and parsed.get('CPP') is not None:
+    for _ in range(2):
+      mut = mutate_to_invalid(sp, rng)
+      if mut is None:
+        ctx.count('negative_mutation_not_applicable')
+        continue
+      kind, where, files2, main2 = mut
+      nbase = os.path.join(scratch, 'n%d' % (i % 4))
+      if os.path.exists(nbase):
+        shutil.rmtree(nbase)
+      os.makedirs(nbase)
+      modules.write_tree(nbase, files2)
+      ctx.journal(dict(info, negative=kind, where=where, files=files2, main=main2))
+      ctx.count('negative_mutations')
+      ctx.count('negative_mutation_' + kind)
+      ctx.count('negative_mutation_in_' + ('main' if where == 'main' else 'module'))
+      for mode in ('PY', 'CPP'):
+        set_parser(mode)
+        try:
+          rules, bad = pipeline.parse_program(main2, import_root=nbase)
+        finally:
+          set_parser('PY')
+        ok = bad is not None and bad.kind == 'diagnostic' and 'ParsingException' in (bad.exc_type or '')
+        ctx.case(stable_hash([files2, main2, kind, mode]), ok)
+        if ok:
+          ctx.count('negative_mutation_rejected_' + mode)
+        else:
+          ctx.violation(None, 'invalid import graph (%s in %s) is not rejected with ParsingException by the %s parser: %s' % (
+              kind, where, mode, 'accepted' if bad is None else '%s %s' % (bad.exc_type, (bad.message or '')[:200])),
+              dict(info, kind='negative_mutation', graph=kind, where=where, files=files2, main=main2, parser=mode,
+                   observed=(bad.brief() if bad else 'accepted')))
+
+
+IMPORT_RE = None
+
+
+def mutate_to_invalid(sp, rng):
+  """One mutation of a valid tree that the property says must be rejected. Returns (kind, where, files, main) or None."""
+  import re
+  files = dict(sp['files'])
+  main = sp['main_text']
+  texts = dict(files, main=main)
+  imp = re.compile(r'^import ([A-Za-z_.0-9]+)\.([A-Za-z_0-9]+)(?: as ([A-Za-z_0-9]+))?;$', re.M)
+  imports = {w: imp.findall(t) for w, t in texts.items()}
+  # modules in dependency order (mod_path index), restricted to the files the main file really reaches
+  live = {'main'}
+  todo = ['main']
+  while todo:
+    w = todo.pop()
+    for pth, _, _ in imports.get(w, ()):
+      if pth not in live and pth in texts:
+        live.add(pth)
+        todo.append(pth)
+  texts_live = {w: t for w, t in texts.items() if w in live}
+  imports = {w: v for w, v in imports.items() if w in live}
+  order = [sp['mod_path'][k] for k in sorted(sp['mod_path']) if sp['mod_path'][k] in live]
+  kind = rng.choice(['redefine', 'redefine', 'unused', 'undefined', 'cycle'])
+  where = None
+  if kind == 'redefine':
+    cands = sorted(w for w in texts_live if imports[w])
+    if not cands:
+      return None
+    where = rng.choice(cands)
+    path, name, alias = rng.choice(imports[where])
+    texts[where] = texts[where] + '%s(1);\n' % (alias or name)
+  elif kind == 'unused':
+    # import one more (existing, exported or not) predicate of an earlier module and never use it
+    cands = []
+    for wi, w in enumerate(order):
+      for earlier in order[:wi]:
+        for p, local in sp['info']['modules'].get(earlier, {}).get('preds', {}).items():
+          cands.append((w, earlier, local))
+    if not cands:
+      return None
+    where, earlier, local = rng.choice(cands)
+    texts[where] = 'import %s.%s as Unused9;\n' % (earlier, local) + texts[where]
+  elif kind == 'undefined':
+    cands = [(w, e) for wi, w in enumerate(order) for e in order[:wi]]
+    if not cands:
+      return None
+    where, earlier = rng.choice(cands)
+    texts[where] = 'import %s.Nope9;\n' % earlier + texts[where] + 'Zq9() :- Nope9();\n'
+  else:
+    # an earlier module imports from a later module that (transitively) imports it
+    deps = {w: {pth for pth, _, _ in imports[w]} for w in texts_live}
+    def reach(a, seen):
+      for b in deps.get(a, ()):
+        if b not in seen:
+          seen.add(b)
+          reach(b, seen)
+      return seen
+    cands = []
+    for later in order:
+      if later == 'main':
+        continue
+      for earlier in reach(later, set()):
+        preds = list(sp['info']['modules'].get(later, {}).get('preds', {}).values())
+        if preds and earlier in texts_live and later in live:
+          cands.append((earlier, later, rng.choice(preds)))
+    if not cands:
+      return None
+    where, later, local = rng.choice(cands)
+    texts[where] = 'import %s.%s as Cyc9;\n' % (later, local) + texts[where] + 'Zq9() :- Cyc9();\n'
+  main2 = texts.pop('main')
+  return kind, where, texts, main2
 
 
 def finalize(agg, tier):
   out = []
   c = agg['counters']
   for k in ('trees', 'predicates', 'trees_with_functor_applications', 'ok_PY', 'ok_CPP', 'flat_ok', 'diamond_trees', 'shared_base_name_trees', 'same_private_name_trees',
-            'alias_imports', 'multi_root_trees', 'negative_trees', 'negative_rejected_PY', 'negative_rejected_CPP',
+            'alias_imports', 'multi_root_trees', 'negative_trees', 'negative_rejected_PY', 'negative_rejected_CPP', 'negative_mutations',
+            'negative_mutation_rejected_PY', 'negative_mutation_rejected_CPP', 'negative_mutation_in_module', 'negative_mutation_redefine',
+            'negative_mutation_cycle', 'negative_mutation_unused', 'negative_mutation_undefined',
             'rule_sets_equal_across_parsers', 'cpp_library_matches_source'):
     if not c.get(k):
       out.append('mandatory counter %s is zero' % k)
